@@ -860,6 +860,9 @@ class Translator:
                     raise Untranslatable("comparison of pointers into different objects")
                 x, y = a[2], b[2]
             elif (a[0] in ("ptr", "null", "unk", "pyobj") or b[0] in ("ptr", "null", "unk", "pyobj")):
+                lg = self.lifecycle_guard(n, st)
+                if lg is not None:
+                    return lg
                 return self.ptr_test(a, b, n.op, st)
             else:
                 x, y = self.as_int(a, st), self.as_int(b, st)
@@ -875,6 +878,31 @@ class Translator:
             b = self.newvar("fail_" + tag, 0, 1, "opaque", "1 iff %s returned 0 / NULL" % tag)
             return ("eq", b, C(0))
         raise Untranslatable("%s:%d: condition %s" % (self.file, self.site(), self.gen.visit(n)))
+
+    def lifecycle_guard(self, n, st):
+        """`self-><cipher context field> == NULL` (or != NULL) in a METHOD, on a field the function has not assigned: the
+        guard for an object whose __init__ never completed.  The model describes calls on constructed objects (R_* have
+        no lifecycle variable), for which the context is non-NULL, so the test is decided (no new logical variable: the
+        model of a method with such a guard is the model without it).  Recorded in f.lifecycle_guards; methods that hand a
+        context to OpenSSL WITHOUT such a guard are listed as `unguarded_ctx_uses` in c04_access.json."""
+        A = self.c_ast
+        if n.op not in ("==", "!=") or self.f.name.endswith("_init") or self.f.name.endswith("_dealloc"):
+            return None
+
+        def isnullc(x):
+            return (isinstance(x, A.Constant) and x.value == "0") or (isinstance(x, A.ID) and x.name == "NULL") or \
+                (isinstance(x, A.Cast) and isnullc(x.expr))
+        fld = None
+        for x, y in ((n.left, n.right), (n.right, n.left)):
+            if isinstance(x, A.StructRef) and x.type == "->" and isinstance(x.name, A.ID) and x.name.name == "self" \
+                    and x.field.name in CTX_BLOCK and isnullc(y):
+                fld = x.field.name
+        if fld is None or ("self->" + fld) in getattr(self, "assigned_fields", set()):
+            return None
+        if not hasattr(self.f, "lifecycle_guards"):
+            self.f.lifecycle_guards = []
+        self.f.lifecycle_guards.append({"field": fld, "line": self.site()})
+        return ("F",) if n.op == "==" else ("T",)
 
     def ptr_test(self, a, b, op, st):
         """p == NULL / p != NULL / ctx != 0 on pointers."""
